@@ -380,43 +380,81 @@ fn scan_convert(src: &str) {
         if !seen_align {
             notes.push("no assert on align_of::<T>() / align_of::<U>() before the take-over".to_owned());
         }
-        // ---- (b) the loop: the input cursor is advanced before the converter is called
-        struct FindWhile {
-            cursor: Option<String>,
-            body: Option<Block>,
+        // ---- (b) the loop: the input cursor is advanced before the converter is called.
+        // The loop is the innermost `while` / `loop` / `for` whose body calls the converter; the input cursor is the
+        // incremented variable that the loop condition (or a `break` test) compares, or that indexes the element
+        // copied out of the vector.
+        struct FindLoop<'f> {
+            fns: &'f HashMap<String, Block>,
+            conv: String,
+            found: Option<(Block, String)>, // body, condition text ("" for loop / for)
         }
-        impl<'ast> Visit<'ast> for FindWhile {
-            fn visit_expr_while(&mut self, w: &'ast syn::ExprWhile) {
-                if self.cursor.is_none() {
-                    if let Expr::Binary(b) = &*w.cond {
-                        if let syn::BinOp::Lt(_) = b.op {
-                            self.cursor = Some(squeeze(&b.left.to_token_stream().to_string()));
-                            self.body = Some(w.body.clone());
+        impl<'f, 'ast> Visit<'ast> for FindLoop<'f> {
+            fn visit_expr(&mut self, e: &'ast Expr) {
+                syn::visit::visit_expr(self, e); // innermost first
+                if self.found.is_some() {
+                    return;
+                }
+                let (body, cond) = match e {
+                    Expr::While(w) => (w.body.clone(), squeeze(&w.cond.to_token_stream().to_string())),
+                    Expr::Loop(l) => (l.body.clone(), String::new()),
+                    Expr::ForLoop(l) => (l.body.clone(), String::new()),
+                    _ => return,
+                };
+                let mut c = Collector::new(self.fns);
+                c.visit_block(&body);
+                if c.events.iter().any(|ev| matches!(ev, Ev::Call(n, _) if *n == self.conv)) {
+                    self.found = Some((body, cond));
+                }
+            }
+        }
+        let mut fl = FindLoop { fns: &fns, conv: conv.clone(), found: None };
+        fl.visit_block(&f.block);
+        match fl.found {
+            Some((body, cond)) => {
+                let mut c = Collector::new(&fns);
+                c.visit_block(&body);
+                let call = c.events.iter().position(|e| matches!(e, Ev::Call(n, _) if *n == conv));
+                let incs: Vec<(usize, String)> = c.events.iter().enumerate().filter_map(|(k, e)| match e {
+                    Ev::AddAssign(v) => Some((k, v.clone())),
+                    _ => None,
+                }).collect();
+                // texts in which the input cursor must occur: the loop condition, the tests guarding a `break`,
+                // the source of the element copy
+                let body_txt = squeeze(&body.to_token_stream().to_string());
+                let mut hints: Vec<String> = vec![cond];
+                for part in body_txt.split("if").skip(1) {
+                    if let Some(p) = part.find("{break") {
+                        hints.push(part[..p].to_owned());
+                    }
+                }
+                for ev in &c.events {
+                    if let Ev::Call(n, a) = ev {
+                        if n == "ptr::copy_nonoverlapping" || n == "ptr::read" {
+                            hints.push(a.split(',').next().unwrap_or("").to_owned());
                         }
                     }
                 }
-                syn::visit::visit_expr_while(self, w);
-            }
-        }
-        let mut fw = FindWhile { cursor: None, body: None };
-        fw.visit_block(&f.block);
-        match (&fw.cursor, &fw.body) {
-            (Some(cur), Some(body)) => {
-                let mut c = Collector::new(&fns);
-                c.visit_block(body);
-                let inc = c.events.iter().position(|e| matches!(e, Ev::AddAssign(v) if v == cur));
-                let call = c.events.iter().position(|e| matches!(e, Ev::Call(n, _) if *n == conv));
-                match (inc, call) {
-                    (Some(i), Some(k)) => {
+                let is_word = |hay: &str, w: &str| {
+                    hay.match_indices(w).any(|(p, _)| {
+                        let before = hay[..p].chars().last();
+                        let after = hay[p + w.len()..].chars().next();
+                        !before.map_or(false, |c| c.is_alphanumeric() || c == '_') && !after.map_or(false, |c| c.is_alphanumeric() || c == '_')
+                    })
+                };
+                let cursor = incs.iter().map(|(_, v)| v.clone()).find(|v| hints.iter().any(|h| is_word(h, v)));
+                match (cursor, call) {
+                    (Some(cur), Some(k)) => {
+                        let i = incs.iter().find(|(_, v)| *v == cur).map(|(i, _)| *i).unwrap();
                         facts[2].1 = i < k;
                         if i >= k {
                             notes.push(format!("`{} += 1` does not precede the call of `{}`", cur, conv));
                         }
                     }
-                    _ => notes.push(format!("loop body not recognised (cursor `{}`, converter `{}`): {:?}", cur, conv, c.events)),
+                    _ => notes.push(format!("loop body not recognised (converter `{}`): {:?}", conv, c.events)),
                 }
             }
-            _ => notes.push("no `while <cursor> < ..` loop found".to_owned()),
+            None => notes.push("no loop calling the converter found".to_owned()),
         }
         // ---- (c) the failure arms of the final match
         struct FindMatch {
@@ -494,7 +532,9 @@ fn scan_convert(src: &str) {
                     Expr::Block(b) => b.block.stmts.last().map(|s| squeeze(&s.to_token_stream().to_string())),
                     e => Some(squeeze(&e.to_token_stream().to_string())),
                 };
-                if tail.as_deref() != Some(&format!("Err({})", b)) {
+                let t = tail.clone().unwrap_or_default();
+                let t = t.trim_end_matches(';').trim_start_matches("return").to_owned();
+                if t != format!("Err({})", b) {
                     same = false;
                     notes.push(format!("error arm does not end with Err({}): {:?}", b, tail));
                 }
